@@ -646,6 +646,8 @@ def gen_history(r, k):
                 un = r.choice([None, None, "1/cm", "eV"])
             if un:
                 c["units"] = un
+            if kind != "MR" and r.random() < 0.3:
+                c["norecalc"] = 1
             calls.append(c)
         elif u < 0.92:
             c = {"op": "ratematrix"}
@@ -696,6 +698,10 @@ CORPUS = [
                {"op": "dmprop", "kind": "PDG", "nref": 2}, {"op": "eso", "kind": "PDG"}, {"op": "eso", "kind": "T"},
                {"op": "ratematrix"}, {"op": "dmprop", "kind": "PD"}, {"op": "eso", "kind": "T"},
                {"op": "dmprop", "kind": "PDG"}]},
+    # the same theory requested with different options, the later requests with recalculate=False
+    {"calls": [{"op": "reltensor", "kind": "TS"}, {"op": "reltensor", "kind": "T", "norecalc": 1}, {"op": "reltensor", "kind": "O", "norecalc": 1},
+               {"op": "reltensor", "kind": "TD", "norecalc": 1}, {"op": "reltensor", "kind": "T"}, {"op": "reltensor", "kind": "TS", "norecalc": 1},
+               {"op": "reltensor", "kind": "F"}, {"op": "reltensor", "kind": "CRF", "norecalc": 1}, {"op": "reltensor", "kind": "F", "norecalc": 1}]},
     # modified Redfield cannot be constructed and leaves the correlation functions transformed (recorded finding)
     {"calls": [{"op": "build", "name": "rt:F"}, {"op": "build", "name": "dm:F"}, {"op": "dmprop", "kind": "F"},
                {"op": "reltensor", "kind": "MR"}, {"op": "dmprop", "kind": "F"}, {"op": "reltensor", "kind": "F"}]},
@@ -822,6 +828,10 @@ def real_call(w, c):
                 if v is None:
                     raise AssertionError("no exact cut-off value in units %s" % units)
                 kw["coupling_cutoff"] = v
+            if c.get("norecalc"):
+                # the documented switch "do not recalculate": whatever it does, the result has to be the one of the same call on
+                # untouched objects (the model does not know the switch: it must not be observable)
+                kw["recalculate"] = False
             cc = {"op": "reltensor", "theory": th, "kw": kw}
         return do_call(w, cc)
 
